@@ -131,9 +131,11 @@ theorem facFromIter_text2 (sep n tb : List Char) (c1 : Char) (k : Nat) (vb : Rat
   have hcreate : StrIt.create (some (n ++ c1 :: tb)) (some sep)
       = atPos sep ([] ++ (n ++ c1 :: tb)) ([] : List Char).length := rfl
   rw [hcreate]
+  have hlt := (cuint32_strict n (c1 :: tb) k hn (by intro x hx; simp at hx; subst hx; exact h1.1)).2
   unfold facFromIter
   rw [consumeU_mid sep [] n c1 _ k hn h1.1]
   simp only []
+  rw [if_neg (by omega)]
   rw [consumeD_last sep ([] ++ n ++ [c1]) tb vb hb]
   simp only []
   rw [consumeD_done _ rfl]
